@@ -22,7 +22,8 @@ ASSUMPTIONS = []
 BRACKET_SOUP = ['(', ')', '[', ']', 'CASE', 'END', 'IF', 'END IF', 'FOR', 'FOREACH', 'END LOOP', 'BEGIN', 'case', 'end',
                 'if', 'end if', 'for', 'end loop', 'begin', 'LOOP', 'WHEN', 'THEN', 'ELSE', 'a', 'b', '1', ',', ';', '.',
                 'select', 'from', 'where', 'x', 'f', '--c\n', '/* c */', '+', '=', 'end  if', 'END\tLOOP', 'End', "'('", '"["',
-                'WHILE', 'while', 'loop', 'END WHILE', 'END FOR', 'DO', 'ELSIF', 'END CASE', 'DECLARE', 'REPEAT', 'UNTIL']
+                'WHILE', 'while', 'loop', 'END WHILE', 'END FOR', 'DO', 'ELSIF', 'END CASE', 'DECLARE', 'REPEAT', 'UNTIL',
+                'end\nif', 'END\r\nLOOP', 'END\x0cIF', 'End\rLoop', 'END \t IF']
 
 
 def bracket_soup(rng):
@@ -62,7 +63,9 @@ def ref_match(tok, spec):
     if tok.ttype is not tt:
         return False
     if tt in T.Keyword:
-        return tok.normalized in values
+        # the reference's own spelling of the keyword (upper case, white space inside compound keywords as one blank):
+        # reading tok.normalized would make the reference follow a change of the library's normalisation
+        return ' '.join(tok.value.upper().split()) in values
     return tok.value in values
 
 
